@@ -121,6 +121,8 @@ def _model_check(name, c, sd, casefile_dir, timeout):
                 case['cfg'] = name
                 lines.append(json.dumps(case))
                 n += 1
+            if n == 0 or (c['mod'] > 1 and n < res.get('distinct', 0) // (4 * c['mod'])):
+                raise vlib.Infra('config %s exported %d of %d cases (mod %d): export sampling is degenerate' % (name, n, res.get('distinct', 0), c['mod']))
             lines.sort()    # TLC's workers print in a scheduling-dependent order
             o.write('\n'.join(lines) + ('\n' if lines else ''))
         return {'config': name, 'bounds': {k: v for k, v in c.items() if k != 'workers'}, 'states': res.get('distinct', 0),
